@@ -66,6 +66,8 @@ declare -A DEMO=(
  [C03c_shift_additive_precedence]="-p yash-arith --test c03c_shift_additive_precedence"
  [C04c_case_broken_alternative]="-p yash-semantics --test c04c_case_broken_pattern"
  [C09c_dot_script_fd_not_cloexec]="-p yash-builtin --test c09c_dot_script_fd_cloexec"
+ [C16c_readonly_local_in_function]="-p yash-builtin --test c16c_readonly_in_function"
+ [C20c_kill_attached_sig_prefix]="-p yash-builtin --test c20c_kill_attached_signal"
 )
 suite() { # runs the pinned suite in $WT, prints number of baseline tests missing
   (cd $WT && cargo nextest run --workspace --no-fail-fast --tool-config-file pb:/w/lib/nextest.toml --profile pb --test-threads 8 --offline >/dev/null 2>&1
